@@ -408,6 +408,31 @@ func init() {
 					}
 				}
 			}
+			// the optional escape \/ (and \b, \f) in keys and values of the DOCUMENT: the JSON value is what counts
+			{
+				root := Node{T: "obj", Props: []Prop{{K: "content/type", N: Node{T: "lit", V: strV("x")}}, {K: "a", N: Node{T: "lit", V: strV("b/c"), Rules: []Rule{rule("const", boolRV(true))}}},
+					{K: "f", N: Node{T: "lit", V: strV("\f\b"), Rules: []Rule{rule("optional", boolRV(true)), rule("minLength", numRV("2"))}}}}}
+				sch, _, err := buildSchema(root, Env{}, false, true)
+				if err != nil || sch.Check() != nil {
+					fatal("the escape probe schema is not accepted")
+				}
+				sv := func(s string) Value { return Value{T: "str", C: codePoints(s)} }
+				for _, pr := range []struct {
+					text string
+					doc  Value
+				}{
+					{`{"content\/type": "q", "a": "b\/c"}`, Value{T: "obj", Ps: []KV{{Key("content/type"), sv("q")}, {Key("a"), sv("b/c")}}}},
+					{`{"content/type": "q\/", "a": "b/c", "f": "\b\f"}`, Value{T: "obj", Ps: []KV{{Key("content/type"), sv("q/")}, {Key("a"), sv("b/c")}, {Key("f"), sv("\b\f")}}}},
+					{`{"content\/type": "q", "a": "b\/d"}`, Value{T: "obj", Ps: []KV{{Key("content/type"), sv("q")}, {Key("a"), sv("b/d")}}}},
+					{`{"content\\/type": "q", "a": "b/c"}`, Value{T: "obj", Ps: []KV{{Key("content\\/type"), sv("q")}, {Key("a"), sv("b/c")}}}},
+					{`{"content\u002ftype": "q", "a": "b\u002Fc", "f": "\u000c"}`, Value{T: "obj", Ps: []KV{{Key("content/type"), sv("q")}, {Key("a"), sv("b/c")}, {Key("f"), sv("\f")}}}},
+				} {
+					got := guard(func() error { return sch.Validate(jdoc.New("doc", pr.text)) })
+					calls++
+					w.Write(map[string]interface{}{"op": "validate", "schema": root, "env": Env{}, "opt": false, "doc": pr.doc, "ok": got.OK,
+						"code": got.Code, "kind": got.Kind, "text": renderSchema(root).Text, "doctext": pr.text})
+				}
+			}
 			// long strings: exactly at their length, one below, one above
 			for _, n := range []int{255, 256, 257, 65535, 65536, 65537, 70000, 1 << 20} {
 				doc := "\"" + strings.Repeat("a", n) + "\""
@@ -518,4 +543,12 @@ func init() {
 		fmt.Fprintf(os.Stderr, "@@SUMMARY {\"schemas\": %d, \"calls\": %d, \"schemas_rejected_by_check\": %d}\n", schemas, calls, rejectedSchemas)
 		return 0
 	})
+}
+
+func codePoints(s string) []int {
+	out := []int{}
+	for _, r := range s {
+		out = append(out, int(r))
+	}
+	return out
 }
